@@ -167,6 +167,11 @@ func installCrashKeeper(w *World, victim int, spec *crashSpec, out *c13Run) func
 			}
 			hook()
 			lastWrite = "restart"
+			// "resumes from its saved offset": the offset the new process starts from is
+			// the one that was durable when the old one died
+			if got := nd.Offset(); got != nd.DeadOffset {
+				w.Fail("C13", "restart-does-not-resume-from-saved-offset", fmt.Sprintf("the state directory held offset %d when the process died; the restarted process starts reading the board at %d (%s)", nd.DeadOffset, got, window))
+			}
 			// (1) every operation that was pending is still offered; (4) no retired one is back
 			now := map[string]bool{}
 			for _, o := range nd.PendingOps() {
